@@ -189,7 +189,40 @@ def chk_cosmic(case, acc, seed):
     acc.case(case, outcome='cosmic')
 
 
-DISPATCH = {'seed': chk_seed, 'reject': chk_reject, 'cosmic': chk_cosmic}
+def chk_history(case, acc, seed):
+    """a deterministic function of its arguments and seed: the same call, cold and after a call that differs in one
+    argument, gives the same draw (the library's module state is reset before each arm)"""
+    import lentil
+    shape = FRAMES[case['frame']]
+    mask = psd_mask(shape)
+    base = dict(mask=mask, pixelscale=1e-3, rms=1e-9, half_power_freq=5, exp=3, seed=case['seed'])
+    for other in (dict(pixelscale=0.25), dict(half_power_freq=2), dict(exp=2), dict(rms=3e-9), dict(seed=case['seed'] + 1)):
+        engine.reset_library_state()
+        cold = np.asarray(lentil.power_spectrum(**base))
+        engine.reset_library_state()
+        lentil.power_spectrum(**dict(base, **other))
+        warm = np.asarray(lentil.power_spectrum(**base))
+        if not np.array_equal(cold, warm):
+            acc.violation('psd:history-dependent', dict(case, other=list(other)),
+                          f'power_spectrum returns a different map after a call that differs in {list(other)} (max diff {np.max(np.abs(cold - warm)):.3e})')
+        acc.transitions += 1
+    for fn, kw, alt in ((lentil.detector.dark_current, dict(rate=20.5, shape=shape, fpn_factor=0.2, seed=case['seed']), dict(rate=3.0)),
+                        (lentil.detector.dark_current, dict(rate=20.5, shape=shape, fpn_factor=0.2, seed=case['seed']), dict(fpn_factor=0.5)),
+                        (lentil.detector.read_noise, dict(img=np.full(shape, 7.0), electrons=3.0, seed=case['seed']), dict(electrons=9.0)),
+                        (lentil.detector.shot_noise, dict(img=np.full(shape, 50.0), seed=case['seed']), dict(img=np.full(shape, 5.0)))):
+        engine.reset_library_state()
+        cold = np.asarray(fn(**kw))
+        engine.reset_library_state()
+        fn(**dict(kw, **alt))
+        warm = np.asarray(fn(**kw))
+        if not np.array_equal(cold, warm):
+            acc.violation(f'{fn.__name__}:history-dependent', dict(case, other=list(alt)), 'result depends on a preceding call')
+        acc.transitions += 1
+    acc.cls('history')
+    acc.case(case, outcome='history')
+
+
+DISPATCH = {'seed': chk_seed, 'reject': chk_reject, 'cosmic': chk_cosmic, 'history': chk_history}
 
 
 def t_cosmic(arg, acc):
@@ -210,6 +243,9 @@ def run(tier, seed, acc, procs=None):
         tasks.append(('t_cosmic', {'tier': tier, 'seed': seed, 'lo': lo}))
     acc.states += 1
     chk_reject({'kind': 'reject'}, acc, seed)
+    for fname in FRAMES:
+        for sd in (0, 1, 5):
+            chk_history({'kind': 'history', 'frame': fname, 'seed': sd}, acc, seed)
     engine.run_parallel(MOD, tasks, acc, procs)
     return {
         'rule': f'seeds 0..{n - 1} x frames (4x4, 3x5, 16x16) x levels (0, 1/2, 3, 50, 1e4) x 6 seeded models: same seed -> identical '
@@ -222,7 +258,7 @@ def run(tier, seed, acc, procs=None):
                         'moment claims are sample statistics with 6-sigma bounds (deterministic for the enumerated seeds), not distributional proofs',
                         'Gaussian shot noise only in its documented large-count regime (>= 1000 counts)'],
         'require': {'psd:non-square': 50, 'psd:square': 50, 'shot-poisson:square': 100, 'read:non-square': 50, 'seed-pairs': 1000,
-                    'cosmic-hit': 20, 'rejections': 1},
+                    'cosmic-hit': 20, 'rejections': 1, 'history': 9},
     }
 
 
